@@ -579,6 +579,21 @@ class BuiltEq(Built):
 
 @symbol
 @dataclass(eq=False)
+class KwBase:
+    """a keyword-only field declared BEFORE the positional ones of the subclass: the dataclass field order (source, a, b) is
+    not the constructor's parameter order (a, b, *, source)"""
+    source: str = field(default='src', kw_only=True)
+
+
+@symbol
+@dataclass(eq=False)
+class BuiltKw(KwBase):
+    a: object = None
+    b: object = None
+
+
+@symbol
+@dataclass(eq=False)
 class BuiltEmpty(Built):
     """an inferred class whose instances are falsy (container-like and empty)"""
 
